@@ -590,7 +590,7 @@ class DisplayK:
 # ---------------------------------------------------------------------------------------------
 # file names as a caller may meet them: spaces and shell/format metacharacters, a leading dash, non-ASCII UTF-8, a line break,
 # and names that are NOT valid UTF-8 (Python shows the odd bytes as lone surrogates)
-ODD_NAMES = [" sp ace %d 'q' \"w\"", "-dash", "caf\u00e9 \u00fc", "\u65e5\u672c\u8a9e", "a;b=c,d", "line\nbreak", "caf\udce9", "\udcff\udcfe x", "e\u0301 nfd"]
+ODD_NAMES = ["tty-graphics-protocol-copy", "tty-graphics-protocol-", " sp ace %d 'q' \"w\"", "-dash", "caf\u00e9 \u00fc", "\u65e5\u672c\u8a9e", "a;b=c,d", "line\nbreak", "caf\udce9", "\udcff\udcfe x", "e\u0301 nfd"]
 
 
 def _make_pool(td, spec):
@@ -623,7 +623,7 @@ def _make_pool(td, spec):
         elif kind == "png":
             # an optional 5th element is the file's base name (str as Python sees file names: bytes that are not UTF-8 appear
             # as lone surrogates); the index keeps names distinct
-            p = os.path.join(td, f"{i}{name[0]}.png" if name else f"img{i}.png")
+            p = os.path.join(td, (f"{name[0]}{i}.png" if name[0].startswith("tty-graphics-protocol-") else f"{i}{name[0]}.png") if name else f"img{i}.png")
             with open(p, "wb") as f:
                 img.save(f, format="PNG")
             pool.append(dict(kind=kind, image=None, path=p))
@@ -659,6 +659,9 @@ def _expected_token(entry):
 def check_case(ctx: Ctx, c: dict):
     if c.get("k") == "cli-stress":
         return cli_stress(ctx, c)
+    if c.get("k") == "cli-seq":
+        from .c08_cli import check_cli_seq
+        return check_cli_seq(ctx, c)
     if c.get("k") == "terminal-switch":
         from .termid import check_terminal_switch
         return check_terminal_switch(ctx, c, "C08")
@@ -764,6 +767,12 @@ def check_case(ctx: Ctx, c: dict):
         acc = {"bytes": 0, "printed": []}     # what sync() saw during the current request (for the K "display model")
         for req in c["requests"]:
             op = req["op"]
+            if req.get("force_id_of") is not None:
+                # the caller forces the id that an instance it obtained earlier carries (whatever that id is at run time)
+                ent_ = instances.get(req["force_id_of"])
+                if ent_ is None or ent_[0].id is None:
+                    continue
+                req = dict(req, force_id=ent_[0].id)
             ctx.count("op:" + op)
             ti = req.get("t", 0) % nterm
             T = terms[ti]["t"]
@@ -785,8 +794,12 @@ def check_case(ctx: Ctx, c: dict):
                     if e["path"] and not e.get("absent"):
                         img = U.noise_image(req["w"], req["h"], req["seed"])
                         img.save(e["path"], format="PNG" if e["kind"] in ("png", "home") else "JPEG")
-                        st = os.stat(e["path"])
-                        os.utime(e["path"], (st.st_atime, st.st_mtime + req.get("dt", 10)))
+                        dt = req.get("dt", 10)
+                        base = e.get("mtime0")
+                        if base is None:
+                            base = e["mtime0"] = int(os.stat(e["path"]).st_mtime) + 0.1      # early in a second: small steps stay inside it
+                        e["mtime0"] = base + dt
+                        os.utime(e["path"], (os.stat(e["path"]).st_atime, e["mtime0"]))
                     continue
                 if op == "setmax":     # the application changes the command size limit of the terminal object
                     T.term.max_command_size = req["value"]
@@ -860,6 +873,22 @@ def check_case(ctx: Ctx, c: dict):
                         inst.image = pool[pi]["image"]
                     kr = _inst_request(inst, display=True)
                     ph = T.upload_and_display(inst, **{k: v for k, v in kw.items() if k in ("force_upload",)})
+                    sync(ti, req, dict(token=token, size=size, mode=mode, entry=pool[pi], is_file=_rf(req), rows=inst.rows, cols=inst.cols))
+                    kd.request(ti, req, **kr, ret=ph.image_id, cmd_bytes=acc["bytes"], printed=acc["printed"], raised=False)
+                elif op == "redisplay_clone":
+                    # the same image under the same id with ANOTHER geometry: a copy of an earlier instance with other cols/rows
+                    ent = instances.get(req["inst"])
+                    if ent is None:
+                        continue
+                    inst0, pi, (token, size, mode) = ent
+                    if pool[pi].get("version", 0) != inst_version.get(req["inst"], 0):
+                        ctx.count("skipped:instance-of-edited-in-memory-image")
+                        continue
+                    inst = inst0.clone_with(cols=req["cols"], rows=req["rows"])
+                    if pool[pi]["image"] is not None and inst.image is None:
+                        inst.image = pool[pi]["image"]
+                    kr = _inst_request(inst, display=True)
+                    ph = T.upload_and_display(inst)
                     sync(ti, req, dict(token=token, size=size, mode=mode, entry=pool[pi], is_file=_rf(req), rows=inst.rows, cols=inst.cols))
                     kd.request(ti, req, **kr, ret=ph.image_id, cmd_bytes=acc["bytes"], printed=acc["printed"], raised=False)
                 elif op == "redisplay_id":       # the CLI's `display <id>`: get_image_instance + upload_and_display
@@ -1108,6 +1137,8 @@ def cases(ctx: Ctx):
                            pool=[["png", 8, 8, rng.randrange(1 << 30)] for _ in range(4)])
     from . import termid
     yield from termid.cases(rng, 40 if ctx.quick else 400)
+    from . import c08_cli
+    yield from c08_cli.cases(ctx)
     # chunk-size sweep: the same image sent inline under consecutive command-size limits, so that payload lengths that are
     # exact multiples of the chunk size (and one more / one less) all occur, whatever the header length is
     for layers in ((0, 1) if ctx.quick else (0, 1, 2)):
@@ -1180,8 +1211,16 @@ def cases(ctx: Ctx):
                                  **({"upload_method": rng.choice(["file", "direct", "auto"])} if rng.random() < 0.15 else {})))
                 names.append(nm)
                 reqs.append(dict(op="display_instance", t=t, inst=nm))
-            elif r < 0.68:
+            elif r < 0.64:
                 reqs.append(dict(op="redisplay_id", t=t, inst=rng.choice(names)))
+            elif r < 0.66:
+                reqs.append(dict(op="redisplay_clone", t=t, inst=rng.choice(names), cols=rng.randrange(1, 7), rows=rng.randrange(1, 4)))
+            elif r < 0.68:
+                # the id of an earlier instance forced onto a request for an image (the same or another) with its own geometry,
+                # then the EARLIER instance used again
+                nm0 = rng.choice(names)
+                reqs.append(dict(op="upload_and_display", t=t, img=rng.randrange(len(pool)), force_id_of=nm0, cols=rng.randrange(1, 7), rows=rng.randrange(1, 4)))
+                reqs.append(dict(op="redisplay_instance", t=t, inst=nm0))
             elif r < 0.75:
                 q = dict(op="redisplay_instance", t=t, inst=rng.choice(names))
                 if rng.random() < 0.4:
@@ -1196,7 +1235,13 @@ def cases(ctx: Ctx):
                 reqs.append(dict(op="touchmem", img=mi, seed=rng.randrange(1 << 30)))    # … edited in place …
                 reqs.append(dict(op="upload_and_display", t=t, img=mi, **geom))           # … shown again: must be the new pixels
             elif r < 0.9:
-                reqs.append(dict(op="touch", img=rng.randrange(len(pool)), w=rng.choice([6, 9]), h=rng.choice([6, 7]), seed=rng.randrange(1 << 30), dt=rng.choice([10, 1000])))
+                ti_ = rng.randrange(len(pool))
+                sub_second = rng.random() < 0.4
+                reqs.append(dict(op="touch", img=ti_, w=rng.choice([6, 9]), h=rng.choice([6, 7]), seed=rng.randrange(1 << 30),
+                                 dt=rng.choice([0.25, 0.5, 0.001]) if sub_second else rng.choice([10, 1000])))
+                if sub_second:
+                    # … shown again right away: the rewritten file is another image although its mtime moved by less than a second
+                    reqs.append(dict(op="upload_and_display", t=t, img=ti_, **geom))
             else:
                 reqs.append(dict(op="del", t=t, inst=rng.choice(names)))
         yield dict(k="scenario", terminals=nterm, ssh=ssh, config=cfg, pool=pool, requests=reqs, **({"term_names": term_names} if term_names else {}))
@@ -1298,4 +1343,4 @@ def run(ctx: Ctx):
             ctx.count("skipped-over-budget")
             continue
         check_case(ctx, c)
-        ctx.case(c, nontrivial=(c.get("k") in ("cli-stress", "terminal-switch") or len(c["requests"]) >= 3))
+        ctx.case(c, nontrivial=(c.get("k") in ("cli-stress", "terminal-switch", "cli-seq") or len(c.get("requests", [])) >= 3))
